@@ -24,7 +24,7 @@
    [numeric s]: the kinds whose elements are numbers. *)
 From Coq Require Import ZArith NArith QArith List Bool.
 From MptV Require Import C19.IterModel C19.IterSpec C19.IterProofs C19.IterText C19.IterString C19.IterRefine
-  C19.IterClosed C19.IterGrammar C19.IterGrammarC C19.IterProfile C19.IterDenote C19.IterAccept C19.IterFeed.
+  C19.IterClosed C19.IterGrammar C19.IterGrammarC C19.IterProfile C19.IterDenote C19.IterAccept C19.IterFeed C19.IterKey.
 Import ListNotations.
 
 (* The documented loop - read the current value, advance, stop when advance reports
@@ -73,10 +73,11 @@ Theorem C19_clone_replays :
     c = s /\ abs c = abs s /\ s_clone (abs s) = Some (abs c).
 Proof. exact clone_replays. Qed.
 
-(* Any interleaving of value/advance/reset/clone on the source and its clone, for EVERY
-   kind including the text iterator: results correspond call by call to the cursor's
-   ([omatch]: same element / none, return code of advance in the class the cursor
-   reports, reset >= 0, clone offered alike). *)
+(* Any interleaving of value/advance/reset/clone and skip (mpt_iterator_consume(it, 0, 0)) on the
+   source and its clone, for EVERY kind including the text iterator: results correspond call by
+   call to the cursor's ([omatch]: same element / none, return code of advance in the class the
+   cursor reports, reset >= 0, clone offered alike, skip = advance whose result is negative exactly
+   when the advance is refused and else tells whether there was an element). *)
 Theorem C19_history_refines :
   forall (rnd : Q -> fv) ops st cst,
     srel rnd (fst st) (fst cst) -> srel rnd (snd st) (snd cst) -> forallb prim ops = true ->
@@ -91,8 +92,8 @@ Proof. exact build_fresh. Qed.
 
 Theorem C19_buffer_fresh : forall d args, inv_buf (mk_buffer d args).
 Proof. exact mk_buffer_inv. Qed.
-Theorem C19_text_fresh : forall t, inv_str (mk_string t).
-Proof. exact mk_string_inv. Qed.
+Theorem C19_text_fresh : forall sep t, inv_str (mk_string_sep sep t).
+Proof. exact mk_string_sep_inv_str. Qed.
 
 (* Clone of any kind: the clone stands for the cursor the specification's clone gives
    (text iterator: a cursor over the remaining text only). *)
@@ -228,6 +229,86 @@ Theorem C19_count_from_numbers_refused :
     fst (lin_of_iter rnd s) = None /\ fst (fac_of_iter rnd s) = None.
 Proof. exact count_from_numbers_refused. Qed.
 
+(* Text iterator (iterator_string.c) whose elements are read as KEYWORDS ('k', key = true) or as 'c'
+   VECTORS (key = false), for every separator configuration: [absb key m] is the cursor over the
+   elements the text denotes for that reader ([scan_rd]: the reader's element at a position, the next
+   element behind the ONE byte that ends it).  Any interleaving of such reads (with and without
+   target), advance, reset and clone on the iterator and its clone corresponds call by call to the
+   cursor ([bomatch]: the bytes handed out are the element's, an unreadable element gives its error
+   code, advance/reset/clone as above).  Model = code WITH docs/C19_string_vector.diff and
+   docs/C19_string_key_separator.diff. *)
+Theorem C19_byte_history_refines :
+  forall (rnd : Q -> fv) (key : bool) ops st cst,
+    brel key (fst st) (fst cst) -> brel key (snd st) (snd cst) -> forallb (bprim key) ops = true ->
+    Forall2 (bomatch key) (mrun rnd st ops) (srun rnd cst ops).
+Proof. exact byte_history_refines. Qed.
+
+(* The documented loop reading keywords / vectors visits exactly the readable elements, in order,
+   and ends with the conversion error of the first unreadable one, else cleanly. *)
+Theorem C19_byte_walk_visits_exactly :
+  forall (rnd : Q -> fv) (key : bool) fuel m full rest fl, invb key m -> absb key m = CStr full rest fl ->
+    (length rest <= fuel)%nat -> rest <> [] ->
+    let '(l, e, m') := str_walk_b (convb key) fuel m [] in
+    map (mk_of key) l = good rest /\ invb key m' /\
+    (if forallb noerr rest then e = WDone else exists c, e = WConvErr c).
+Proof. exact byte_walk_visits_exactly. Qed.
+
+Theorem C19_byte_text_fresh : forall key sep t, invb key (mk_string_sep sep t).
+Proof. exact byte_text_fresh. Qed.
+
+(* What the two readers hand out, stated without their scanning loops: separators holding a white-space
+   character (the default " ,;/:"): the keyword is the longest run of bytes that are neither white
+   space, separator nor end behind the leading white space, and the element ends at the FIRST byte
+   behind it; vector: leading white space + the next word, ended by white space or the end of the text. *)
+Theorem C19_key_element :
+  forall sep t p rs b, existsb isspace sep = true -> rd_key sep t p = ROk rs b ->
+    let k := skip_space_at t p in
+    (k <= rs)%nat /\ b = firstn (rs - k) (skipn k (t_bytes t)) /\ forallb (keych sep) b = true /\
+    (byte_at t rs = 0%N \/ isspace (byte_at t rs) = true \/ is_sep sep (byte_at t rs) = true).
+Proof. exact key_element. Qed.
+Theorem C19_vector_element :
+  forall t p rs b, rd_vec t p = ROk rs b ->
+    let k := skip_space_at t p in
+    (k <= rs)%nat /\ b = firstn (rs - p) (skipn p (t_bytes t)) /\
+    forallb wordch (firstn (rs - k) (skipn k (t_bytes t))) = true /\
+    (byte_at t rs = 0%N \/ isspace (byte_at t rs) = true).
+Proof. exact vector_element. Qed.
+
+(* Segments of a buffer are no numbers: mpt_iterator_consume(.., 'd') and the documented loop are
+   refused at once and leave the iterator where it is. *)
+Theorem C19_buffer_no_numbers :
+  forall (rnd : Q -> fv) m fuel,
+    (buf_value m = VNone -> it_consume rnd (SBuf m) = (MissingData, None, SBuf m) /\
+                            it_walk rnd (S fuel) (SBuf m) [] = ([], WNoValue, SBuf m)) /\
+    (buf_value m <> VNone -> it_consume rnd (SBuf m) = (BadType, None, SBuf m) /\
+                             it_walk rnd (S fuel) (SBuf m) [] = ([], WConvErr BadType, SBuf m)).
+Proof. exact buffer_no_numbers. Qed.
+
+(* mpt_range_set (range_set.c).  Iterator value, source of numbers: the next two elements become min and
+   max, the source is left behind them; fewer than two: refused, range untouched.  Vector of doubles:
+   exactly two complete elements (16..23 bytes), a null base gives 0..1; anything else BadValue, untouched.
+   Null iterator pointer: 0..1; other types: BadType, untouched. *)
+Theorem C19_range_set_from_numbers :
+  forall (rnd : Q -> fv) s mn mx, inv rnd s -> numeric s = true -> s_bad (abs s) = false ->
+    let '(r, a, b, s') := range_set rnd s mn mx in
+    match remaining rnd (abs s) with
+    | x :: y :: rest => r = 2%Z /\ x = EV a /\ y = EV b /\ remaining rnd (abs s') = rest /\ inv rnd s'
+    | _ => (r < 0)%Z /\ a = mn /\ b = mx
+    end.
+Proof. exact range_set_from_numbers. Qed.
+Theorem C19_range_set_vector :
+  forall bytes base mn mx,
+    range_set_val (RSVec bytes base) mn mx =
+    if ((16 <=? bytes) && (bytes <? 24))%N
+    then match base with Some l => (0%Z, nth 0 l NaN, nth 1 l NaN) | None => (0%Z, Fin 0, of_N 1) end
+    else (BadValue, mn, mx).
+Proof. exact range_set_vector. Qed.
+Theorem C19_range_set_other :
+  forall mn mx,
+    range_set_val RSNoIter mn mx = (0%Z, Fin 0, of_N 1) /\
+    range_set_val RSVecNull mn mx = (BadValue, mn, mx) /\ range_set_val RSOther mn mx = (BadType, mn, mx).
+Proof. exact range_set_other. Qed.
+
 (* ---- non-vacuity *)
 Definition ex_lin : lin := {| l_base := Fin 0; l_step := dyadic 1 (-2); l_elem := 5; l_pos := 2 |}.
 Example C19_ex_inv : inv rnd64 (SLin ex_lin).
@@ -294,6 +375,40 @@ Proof. vm_compute. repeat split; reflexivity. Qed.
 Example C19_ex_qpoly : (qpoly [(1, 0); (2, 0); (3, 0)] 2 == 11)%Q.
 Proof. vm_compute. reflexivity. Qed.
 
+(* "ab,cd ef;" read as keywords with the default separators, and as vectors; the libc tables are not consulted *)
+Definition ex_words : text := {| t_bytes := [97;98;44;99;100;32;101;102;59]%N; t_d := []; t_u := [] |}.
+Example C19_ex_keys :
+  fst (str_walk_b str_conv_k 10 (mk_string ex_words) []) = ([[97;98]; [99;100]; [101;102]]%N, WConvErr MissingData) /\
+  absb true (mk_string ex_words)
+  = CStr [ES [97;98]; ES [99;100]; ES [101;102]; EErr MissingData]%N [ES [97;98]; ES [99;100]; ES [101;102]; EErr MissingData]%N false.
+Proof. vm_compute. split; reflexivity. Qed.
+Example C19_ex_vectors :
+  fst (str_walk_b str_conv_vec 10 (mk_string ex_words) []) = ([[97;98;44;99;100]; [101;102;59]]%N, WDone).
+Proof. vm_compute. reflexivity. Qed.
+Example C19_ex_byte_inv : invb true (mk_string ex_words) /\ brel true (Some (SStr (mk_string ex_words))) (Some (absb true (mk_string ex_words))).
+Proof. split; [apply byte_text_fresh|split; [apply byte_text_fresh|reflexivity]]. Qed.
+(* a history with reads, skip, clone on the keyword reader *)
+Example C19_ex_key_history :
+  mrun rnd64 (Some (SStr (mk_string ex_words)), None)
+       [(OKey, false); (OAdvance, false); (OClone, false); (OKeyN, true); (OSkip, true); (OKey, true); (OKey, false)]
+  = [OutB T_s (Some [97;98]%N); OutA T_s; OutK true; OutC T_s; OutZ T_conv; OutB T_s (Some [101;102]%N);
+     OutB T_s (Some [99;100]%N)].
+Proof. vm_compute. reflexivity. Qed.
+Example C19_ex_range_set :
+  range_set_val (RSVec 17 (Some [Fin 2; Fin 3; Fin 4])) (Fin 7) (Fin 9) = (0%Z, Fin 2, Fin 3) /\
+  range_set_val (RSVec 24 (Some [Fin 2; Fin 3; Fin 4])) (Fin 7) (Fin 9) = (BadValue, Fin 7, Fin 9) /\
+  fst (range_set rnd64 (SLin ex_lin) (Fin 7) (Fin 9)) = (2%Z, Fin (1#2), Fin (3#4)).
+Proof. vm_compute. repeat split; reflexivity. Qed.
+
+Print Assumptions C19_byte_history_refines.
+Print Assumptions C19_byte_walk_visits_exactly.
+Print Assumptions C19_byte_text_fresh.
+Print Assumptions C19_key_element.
+Print Assumptions C19_vector_element.
+Print Assumptions C19_buffer_no_numbers.
+Print Assumptions C19_range_set_from_numbers.
+Print Assumptions C19_range_set_vector.
+Print Assumptions C19_range_set_other.
 Print Assumptions C19_range_from_numbers.
 Print Assumptions C19_count_from_numbers_refused.
 Print Assumptions C19_accepted_iff_in_grammar.
